@@ -89,6 +89,11 @@ def extreme_pair(r):
     if r.chance(1, 2):
         a = a[:8] + (i0, 1, 1, 1)
     b = long_colour(r) + long_colour(r) + (3 - i0, 1 - a[9], 1 - a[10], 1 - a[11])
+    if r.chance(1, 3):
+        # every effect goes off at once while one or both colours stay as they are
+        a = a[:8] + (i0, 1, 1, 1)
+        keep = r.below(3)
+        b = (a[0:4] if keep != 1 else long_colour(r)) + (a[4:8] if keep != 0 else long_colour(r)) + (0, 0, 0, 0)
     return a, b
 
 
@@ -281,6 +286,20 @@ def gen_term_case(r, idx, wild=False, nops=None, kinds=None):
         k = r.pick(kinds) if kinds else r.below(34)
         if k < 9:
             txt = es.next()
+            if not wild and r.chance(1, 40) and lines and lines[-1].startswith("T 0 elem "):
+                # the connection fails for one write: the element repeats the previous one's
+                # rendition and character set, so its glyph is the only thing written
+                prev = lines[-1].split()[3:]
+                if int(prev[1]) >= 32 and int(prev[1]) != 127:
+                    g = wf_glyph(r)
+                    if (g[0] == 18) == (int(prev[0]) == 18):
+                        g = (int(prev[0]),) + g[1:] if g[0] != 18 else g
+                        e1 = el(g, tuple(int(v) for v in prev[4:]))
+                        lines.append("T 0 failnext")
+                        lines.append(r.pick(["T 0 elem " + e1, "T 0 str 1 " + e1, "T 0 str 2 %s %s" % (e1, e1)]))
+                        if r.chance(2, 3):
+                            lines.append(r.pick(["T 0 elem " + e1, "T 0 str 1 " + e1]))
+                        continue
             if not wild and cur is not None and (cur[0] == 0 or r.chance(1, 6)) and r.chance(1, 4):
                 # a carriage return or backspace where a position is believed known
                 txt = el((5, r.pick([8, 8, 13]), 0, 0), tuple(int(v) for v in txt.split()[4:]))
@@ -586,6 +605,14 @@ def gen_value_case(r, idx):
         elif k == 2:
             a = wild_colour(r)
             b = a if r.chance(1, 3) else wild_colour(r)
+            if r.chance(1, 3):
+                # the same stored number under another kind of colour (black / raw index 0 /
+                # raw shade 0, ...), and neighbours across the kinds' ranges
+                v = r.pick([0, 0, 1, 7, 8, 9, 15, 16, 231, 232, 255, a[1]])
+                a = (r.below(3), v, 0, 0)
+                b = (r.pick([x for x in (0, 1, 2, 3) if x != a[0]]), r.pick([v, v, near(v, 0, 255)]), 0, 0)
+                if b[0] == 3:
+                    b = (3, v, r.pick([0, v]), r.pick([0, v]))
             lines.append("V colour %s %s" % (" ".join(map(str, a)), " ".join(map(str, b))))
         elif k == 3:
             a = wild_attr(r)
@@ -1172,6 +1199,17 @@ def gen_strobj_case(r, idx):
                 continue
         for i in sorted(size):
             lines.append("Z %d dump" % i)
+            if r.chance(1, 3):
+                lines.append("Z %d mdump" % i)
+        if size and r.chance(1, 4):
+            # a reference / an iterator taken, the string observed, then written through
+            t2 = r.pick(sorted(size))
+            if size[t2] > 0:
+                lines.append("Z %d hold %d" % (t2, r.below(size[t2])))
+                lines.append("Z %d dump" % t2)
+                lines.append("Z %d heldset %d %s" % (t2, r.below(2), an_elem()))
+                for i in sorted(size):
+                    lines.append("Z %d dump" % i)
     lines.append("END")
     return lines
 
@@ -1203,7 +1241,7 @@ def gen_show_case(r, idx):
 
     for _ in range(3):
         vals = [one() for _ in range(r.rng(1, 6))]
-        lines.append("V show %d %s" % (len(vals), " ".join(vals)))
+        lines.append("V show %d %d %s" % (r.pick([0, 0, 0, 1, 2, 4, 8, 17, 32, 64, 128, 256, 512, r.below(1024) & ~3]), len(vals), " ".join(vals)))
     lines.append("END")
     return lines
 
@@ -1221,17 +1259,17 @@ def gen_show_sweep():
         for v in range(256):
             for kind in (1, 2):
                 vals = pre + ["colour %d %d 0 0" % (kind, v)]
-                lines.append("V show %d %s" % (len(vals), " ".join(vals)))
+                lines.append("V show %d %d %s" % ((0, 1, 2, 4 | 8 | 32, 17)[cid % 5], len(vals), " ".join(vals)))
         for v in range(12):
             vals = pre + ["colour 0 %d 0 0" % v]
-            lines.append("V show %d %s" % (len(vals), " ".join(vals)))
+            lines.append("V show 0 %d %s" % (len(vals), " ".join(vals)))
         lines.append("END")
     for cs in range(19):
         cid += 1
         lines.append("CASE %d" % cid)
         for b in range(0, 256, 8):
             vals = ["glyph %d %d 0 0" % (cs, b + i) for i in range(8)]
-            lines.append("V show 8 " + " ".join(vals))
+            lines.append("V show %d 8 " % (0, 1, 17)[cs % 3] + " ".join(vals))
         lines.append("END")
     return lines
 
@@ -1341,6 +1379,21 @@ def gen_charset_sweep():
             lines.append("# WANTCS %d" % want)
             lines.append("M ete " + hexs([92, 99] + f + [92, 99] + g + [88]))
             lines.append("END")
+    # the lookup function given a view into a longer buffer: only the bytes of
+    # the view count
+    for behind in ([53], [54], [48, 65], [37, 53]):
+        n += 1
+        lines.append("CASE %d" % n)
+        for b in list(range(32, 127)) + [0, 27, 128, 255]:
+            want = STD_LOOKUP.get(b)
+            lines.append("# WANTLK %s" % (want if want is not None and b != 37 else "-"))
+            lines.append("M lookup %s 1" % hexs([b] + behind))
+            want2 = STD_LOOKUP_EXT.get(b)
+            lines.append("# WANTLK %s" % (want2 if want2 is not None else "-"))
+            lines.append("M lookup %s 2" % hexs([37, b] + behind))
+        lines.append("# WANTLK -")
+        lines.append("M lookup %s 0" % hexs(behind))
+        lines.append("END")
     for cs in range(18):
         n += 1
         lines.append("CASE %d" % n)
